@@ -369,3 +369,23 @@ def c16_anderson_sym(ctx, depth, restart, start):
         a = used(g.copy(), f.copy(), first + k)
         b = fresh(g.copy(), f.copy(), first + k)
         ctx.ensure(f"call {k} (iteration {first + k}): re-used accelerator == fresh accelerator", eq(np.asarray(a), np.asarray(b)))
+
+
+@ob("C16.mg_sizes", kind="B", cases=product_cases(depth=(1, 2, 3), small=((4, 4), (5, 40), (2, 3))), funcs=FUNCS, samples=(1, 2), tol=1e-12,
+    cite="The result of a ... multigrid solve ... depends only on the arguments of that call ... not on earlier calls made ... with the same object",
+    note="bounded: a multigrid object that first saw a SMALL array (served, or refused because the hierarchy does not fit) and then a large one returns what a fresh object returns for "
+         "the large one, and its configuration (depth, iteration counts, dimension) is what it was constructed with (after seed C16_h: depth limited for a small array and kept)")
+def c16_mg_sizes(ctx, depth, small):
+    rng = np.random.default_rng(ctx.rng.randrange(1 << 30))
+    mk = lambda: darsia.MG(depth=depth, smoother_iterations=2, maxiter=3, dim=2, mass_coeff=1.0, diffusion_coeff=40.0)
+    used, fresh = mk(), mk()
+    conf0 = _configuration(used)
+    try:
+        used(rng.random(small), rng.random(small))
+    except Exception:      # noqa: BLE001 - a hierarchy that does not fit the array is refused
+        pass
+    ctx.ensure("configuration attributes unchanged by the earlier call", _configuration(used) == conf0)
+    big = (32, 32)
+    x0, rhs = rng.random(big), rng.random(big)
+    a, b = used(x0.copy(), rhs.copy()), fresh(x0.copy(), rhs.copy())
+    ctx.ensure("result on the large array: object that saw a small array before == fresh object", bool(np.array_equal(a, b)))
